@@ -609,19 +609,40 @@ begin_copy.no_replay = True
 
 # ----------------------------------------------------------------------------------------------- extra checks
 
-# (b) syntactic dominance: inside SFTPServer every path that reaches the operating system comes out of map_path.
-#     A small flow-sensitive "mapped" analysis over each method body (assignments in order, branches merged with
-#     AND).  Mapped expressions: self.map_path(e); _to_local_path(m) / _from_local_path(m) / os.fsencode(m) for a
-#     mapped m; a local name whose reaching assignments are all mapped.  Sinks: open(), _setstat(), every os.* /
-#     os.path.* call that is not in PURE.  Arguments derived from an already open file object (x.fileno(), x.name)
-#     are handles, not paths.  The FIRST argument of os.symlink is the text stored in the link, not a path that is
-#     opened (it is covered by the symlink contract, not by this scan).
+# (b) syntactic dominance, fail closed: inside SFTPServer a value derived from a client-supplied path may only go
+#     to map_path (or to something that cannot touch a file), and every path that reaches the operating system comes
+#     out of map_path.  A flow-sensitive three-valued analysis of each method body (assignments in order; at a
+#     merge TAINTED wins, MAPPED survives only if both sides are MAPPED):
+#       TAINTED  derived from a parameter annotated `bytes` (every such parameter is a client-supplied path, except
+#                the ones listed in NOT_PATH_PARAMS), through any expression;
+#       MAPPED   self.map_path(e), or a WRAPPERS call / cast of a MAPPED value, or a local holding one;
+#       CLEAN    everything else.
+#     Rule 1 (whitelist, whatever module the callee is from): a call that receives a TAINTED value - as receiver,
+#       positional or keyword argument - must be self.map_path / self.reverse_map_path, a WRAPPERS call, a pure text
+#       function (TEXT_FUNCS), a method of the bytes value itself (BYTES_METHODS), a logger call, an exception or
+#       record constructor, or another SFTPServer operation (which is itself subject to this scan).  Anything else -
+#       os.*, pathlib, shutil, glob, open, a helper function - fails the scan.
+#     Rule 2 (known sinks): open(), _setstat() and every os.* / os.path.* call outside PURE_OS must get MAPPED paths
+#       (or a handle taken from an open file object parameter: <param>.fileno() / <param>.name).
+#     The FIRST argument of os.symlink is the text stored in the link, not a path that is opened; it is exempt from
+#     both rules and covered by the symlink contract instead.
 PURE_OS = {'fsencode', 'fsdecode', 'path.join', 'path.relpath', 'path.basename', 'path.dirname', 'path.normpath',
            'path.isabs', 'getuid', 'getgid',
            # resolves pre-existing links only (kernel link resolution is an assumed surrounding, see ASSUMPTIONS)
            'path.realpath'}
 WRAPPERS = {'_to_local_path', '_from_local_path', 'os.fsencode'}
+TEXT_FUNCS = {'posixpath.' + f for f in ('join', 'normpath', 'basename', 'dirname', 'isabs', 'split')} | \
+             {'os.path.' + f for f in ('join', 'relpath', 'basename', 'dirname', 'normpath', 'isabs', 'realpath')} | \
+             {'len', 'isinstance', 'cast', 'bytes', 'str', 'repr', 'bool'}
+BYTES_METHODS = {'startswith', 'endswith', 'decode', 'split', 'rsplit', 'strip', 'lstrip', 'rstrip', 'replace',
+                 'find', 'rfind', 'index', 'count', 'lower', 'upper', 'partition', 'rpartition', 'join'}
+RECORDS = {'SFTPName'}                       # plain data records returned to the client
+LEGACY_OPS = {'listdir'}                     # pre-2.x override hook used by scandir: a server operation a subclass
+                                             # supplies (it receives the client path and has to map it itself)
 NOT_SERVER_OPS = {'__init__', 'map_path', 'reverse_map_path'}
+NOT_PATH_PARAMS = {('write', 'data')}        # file content, handed to the already open file object
+TWO_PATHS = {'os.rename', 'os.replace', 'os.link', 'os.renames'}
+T_, M_, C_ = 'TAINTED', 'MAPPED', 'CLEAN'
 
 
 def _dotted(f):
@@ -634,7 +655,10 @@ def _dotted(f):
     return None
 
 
-TWO_PATHS = {'os.rename', 'os.replace', 'os.link', 'os.renames'}
+def _join_cls(a, b):
+    if T_ in (a, b):
+        return T_
+    return M_ if a == b == M_ else C_
 
 
 def scan_server_fs_calls():
@@ -643,59 +667,89 @@ def scan_server_fs_calls():
     from pyvc import extract
     mod = extract.get_module('sftp')
     cls = mod.classes['SFTPServer']
+    server_methods = {n.name for n in cls.body if isinstance(n, (ast.FunctionDef, ast.AsyncFunctionDef))}
+    server_methods |= LEGACY_OPS
     sinks, problems = [], []
 
-    def mapped(e, env):
+    def klass(e, env):
+        """TAINTED / MAPPED / CLEAN for expression e"""
         if isinstance(e, ast.Name):
-            return env.get(e.id, False)
+            return env.get(e.id, C_)
         if isinstance(e, ast.Call):
             k = _dotted(e.func)
             if k == 'self.map_path' and len(e.args) == 1 and not e.keywords:
-                return True
+                return M_
             if k in WRAPPERS and len(e.args) == 1 and not e.keywords:
-                return mapped(e.args[0], env)
+                return klass(e.args[0], env)
             if k == 'cast' and len(e.args) == 2:
-                return mapped(e.args[1], env)
-        return False
+                return klass(e.args[1], env)
+            if k is not None and k.startswith('self.') and k.count('.') == 1 and k[5:] in server_methods:
+                return C_       # what another server operation returns comes from the file system, not the client
+        if isinstance(e, ast.Lambda):
+            return C_
+        # any other expression: derived from a client path if any part of it is (never MAPPED)
+        return T_ if any(klass(c, env) == T_ for c in ast.iter_child_nodes(e) if isinstance(c, ast.expr)) or \
+            any(klass(kw.value, env) == T_ for kw in getattr(e, 'keywords', [])) else C_
 
-    def handle(e):
-        """x.fileno() / x.name of an already open file object"""
+    def handle(e, params):
+        """<file object parameter>.fileno() / .name : a handle of an already open file, not a path"""
         if isinstance(e, ast.Call) and isinstance(e.func, ast.Attribute) and e.func.attr == 'fileno' and not e.args:
-            return True
-        return isinstance(e, ast.Attribute) and e.attr == 'name'
+            e = e.func
+        elif not (isinstance(e, ast.Attribute) and e.attr == 'name'):
+            return False
+        return isinstance(e.value, ast.Name) and params.get(e.value.id) == 'object'
 
     def path_args(k, node):
-        """the arguments of a sink call that name files (positional or by keyword)"""
         if k == 'os.symlink':
             return list(node.args[1:2]) + [kw.value for kw in node.keywords if kw.arg == 'dst']
         if k in TWO_PATHS:
             return list(node.args[:2]) + [kw.value for kw in node.keywords if kw.arg in ('src', 'dst')]
         return list(node.args[:1]) + [kw.value for kw in node.keywords if kw.arg in ('path', 'file', 'name')]
 
-    def visit_call(node, env, meth):
+    def is_exception(name):
+        return name is not None and '.' not in name and extract.is_subclass(name, 'BaseException')
+
+    def visit_call(node, env, meth, params):
         k = _dotted(node.func)
-        if k is None:
-            return
-        if not (k in ('open', '_setstat') or (k.startswith('os.') and k[3:] not in PURE_OS)):
+        text = ast.unparse(node)[:100]
+        # ---- rule 1: where may a TAINTED value go?
+        received = list(node.args) + [kw.value for kw in node.keywords]
+        recv = node.func.value if isinstance(node.func, ast.Attribute) else None
+        if k == 'os.symlink':
+            received = received[1:]
+        tainted = [a for a in received if klass(a, env) == T_]
+        recv_tainted = recv is not None and klass(recv, env) == T_
+        if tainted or recv_tainted:
+            ok1 = (k in ('self.map_path', 'self.reverse_map_path') or k in WRAPPERS or k in TEXT_FUNCS or k in RECORDS
+                   or is_exception(k)
+                   or (k is not None and (k.startswith('self.logger.') or k.startswith('logger.')))
+                   or (k is not None and k.startswith('self.') and k.count('.') == 1 and k[5:] in server_methods)
+                   or (recv_tainted and not tainted and isinstance(node.func, ast.Attribute)
+                       and node.func.attr in BYTES_METHODS))
+            if not ok1:
+                problems.append(f'SFTPServer.{meth} line {node.lineno}: {text} - receives a value derived from a '
+                                f'client-supplied path that did not go through self.map_path(...)')
+        # ---- rule 2: known file-system entry points need MAPPED paths
+        if k is None or not (k in ('open', '_setstat') or (k.startswith('os.') and k[3:] not in PURE_OS)):
             return
         pa = path_args(k, node)
-        ok = bool(pa) and all(mapped(a, env) or handle(a) for a in pa)
-        sinks.append((meth, node.lineno, ast.unparse(node)[:100], ok))
+        ok = bool(pa) and all(klass(a, env) == M_ or handle(a, params) for a in pa)
+        sinks.append((meth, node.lineno, text, ok))
         if not ok:
-            problems.append(f'SFTPServer.{meth} line {node.lineno}: {ast.unparse(node)[:100]} - a path argument does '
-                            f'not come from self.map_path(...)')
+            problems.append(f'SFTPServer.{meth} line {node.lineno}: {text} - a path argument does not come from '
+                            f'self.map_path(...)')
 
-    def visit(e, env, meth):
+    def visit(e, env, meth, params):
         """all calls in expression e; the opener lambda of an open() call sees that call's path as its first
-        parameter (that is what io.open passes to it)"""
+        parameter (that is what io.open passes to it); parameters of any other lambda are TAINTED (fail closed)"""
         if isinstance(e, ast.Lambda):
             env = dict(env)
             for a in e.args.args + e.args.kwonlyargs:
-                env[a.arg] = False
-            visit(e.body, env, meth)
+                env[a.arg] = T_
+            visit(e.body, env, meth, params)
             return
         if isinstance(e, ast.Call):
-            visit_call(e, env, meth)
+            visit_call(e, env, meth, params)
             k = _dotted(e.func)
             for c in ast.iter_child_nodes(e):
                 if isinstance(c, ast.keyword) and k == 'open' and c.arg == 'opener' and \
@@ -703,82 +757,92 @@ def scan_server_fs_calls():
                     lam = c.value
                     env2 = dict(env)
                     for a in lam.args.args + lam.args.kwonlyargs:
-                        env2[a.arg] = False
-                    env2[lam.args.args[0].arg] = bool(e.args) and mapped(e.args[0], env)
-                    visit(lam.body, env2, meth)
+                        env2[a.arg] = C_
+                    env2[lam.args.args[0].arg] = klass(e.args[0], env) if e.args else T_
+                    visit(lam.body, env2, meth, params)
                 else:
-                    visit(c, env, meth)
+                    visit(c, env, meth, params)
             return
         for c in ast.iter_child_nodes(e):
-            visit(c, env, meth)
+            visit(c, env, meth, params)
 
-    def kill(target, env):
+    def bind(target, value_cls, env):
         for n in ast.walk(target):
             if isinstance(n, ast.Name):
-                env[n.id] = False
+                env[n.id] = value_cls if isinstance(target, ast.Name) else (T_ if value_cls == T_ else C_)
 
-    def run(stmts, env, meth):
+    def merge(env, *others):
+        for k in set(env).union(*[set(o) for o in others]):
+            c = others[0].get(k, C_)
+            for o in others[1:]:
+                c = _join_cls(c, o.get(k, C_))
+            env[k] = c
+
+    def run(stmts, env, meth, params):
         for st in stmts:
             if isinstance(st, (ast.Assign, ast.AnnAssign)):
                 if st.value is None:
                     continue
-                visit(st.value, env, meth)
+                visit(st.value, env, meth, params)
+                c = klass(st.value, env)
                 for t in (st.targets if isinstance(st, ast.Assign) else [st.target]):
-                    if isinstance(t, ast.Name):
-                        env[t.id] = mapped(st.value, env)
-                    else:
-                        kill(t, env)
+                    bind(t, c, env)
             elif isinstance(st, ast.AugAssign):
-                visit(st.value, env, meth)
-                kill(st.target, env)
+                visit(st.value, env, meth, params)
+                c = _join_cls(klass(st.value, env), klass(st.target, env) if isinstance(st.target, ast.Name) else C_)
+                bind(st.target, T_ if c == T_ else C_, env)
             elif isinstance(st, ast.If):
-                visit(st.test, env, meth)
+                visit(st.test, env, meth, params)
                 e1, e2 = dict(env), dict(env)
-                run(st.body, e1, meth)
-                run(st.orelse, e2, meth)
-                for k in set(e1) | set(e2):
-                    env[k] = e1.get(k, False) and e2.get(k, False)
+                run(st.body, e1, meth, params)
+                run(st.orelse, e2, meth, params)
+                merge(env, e1, e2)
             elif isinstance(st, (ast.For, ast.AsyncFor, ast.While)):
-                visit(st.test if isinstance(st, ast.While) else st.iter, env, meth)
+                visit(st.test if isinstance(st, ast.While) else st.iter, env, meth, params)
                 if not isinstance(st, ast.While):
-                    kill(st.target, env)
+                    bind(st.target, T_ if klass(st.iter, env) == T_ else C_, env)
                 e1 = dict(env)
                 n0 = len(sinks), len(problems)
-                run(st.body, e1, meth)
-                for k in set(e1) | set(env):            # what may flow around the loop
-                    e1[k] = e1.get(k, False) and env.get(k, False)
+                run(st.body, e1, meth, params)
+                merge(e1, e1, env)                      # what may flow around the loop
                 del sinks[n0[0]:], problems[n0[1]:]
-                run(st.body, e1, meth)
-                for k in set(e1) | set(env):
-                    env[k] = e1.get(k, False) and env.get(k, False)
-                run(st.orelse, env, meth)
+                run(st.body, e1, meth, params)
+                merge(env, e1, env)
+                run(st.orelse, env, meth, params)
             elif isinstance(st, (ast.With, ast.AsyncWith)):
                 for it in st.items:
-                    visit(it.context_expr, env, meth)
+                    visit(it.context_expr, env, meth, params)
                     if it.optional_vars is not None:
-                        kill(it.optional_vars, env)
-                run(st.body, env, meth)
+                        bind(it.optional_vars, T_ if klass(it.context_expr, env) == T_ else C_, env)
+                run(st.body, env, meth, params)
             elif isinstance(st, ast.Try):
                 e0 = dict(env)
-                run(st.body, env, meth)
+                run(st.body, env, meth, params)
                 for h in st.handlers:
-                    eh = {k: e0.get(k, False) and env.get(k, False) for k in set(e0) | set(env)}
-                    run(h.body, eh, meth)
-                    for k in set(eh) | set(env):
-                        env[k] = eh.get(k, False) and env.get(k, False)
-                run(st.orelse, env, meth)
-                run(st.finalbody, env, meth)
+                    eh = dict(env)
+                    merge(eh, e0, env)
+                    run(h.body, eh, meth, params)
+                    merge(env, eh, env)
+                run(st.orelse, env, meth, params)
+                run(st.finalbody, env, meth, params)
             elif isinstance(st, (ast.FunctionDef, ast.AsyncFunctionDef, ast.ClassDef)):
                 problems.append(f'SFTPServer.{meth}: nested definition {st.name} is not analysed')
             else:
                 for c in ast.iter_child_nodes(st):
                     if isinstance(c, ast.expr):
-                        visit(c, env, meth)
+                        visit(c, env, meth, params)
 
     for node in cls.body:
         if isinstance(node, (ast.FunctionDef, ast.AsyncFunctionDef)) and node.name not in NOT_SERVER_OPS:
-            env = {a.arg: False for a in node.args.args + node.args.kwonlyargs}
-            run(node.body, env, node.name)
+            params = {a.arg: (ast.unparse(a.annotation) if a.annotation is not None else None)
+                      for a in node.args.args + node.args.kwonlyargs}
+            if node.args.vararg or node.args.kwarg:
+                problems.append(f'SFTPServer.{node.name}: *args / **kwargs parameters are not analysed')
+            env = {}
+            for name, ann in params.items():
+                is_path = ann is not None and 'bytes' in ann and (node.name, name) not in NOT_PATH_PARAMS
+                env[name] = T_ if is_path else C_
+            run(node.body, env, node.name, params)
     return sinks, problems
 
 
